@@ -136,15 +136,22 @@ CLAIMED['C20'] = dict(
     ref='§4 C20')
 
 CLAIMED['C05'] = dict(
-    text='Decides with Z3 over the real MIR of Allocator::collect_garbage / collect_garbage_with_value and the sweeps (C05.K2) from an '
-         'arbitrary mark state over abstract handles: every marked object survives, a nursery / boxed object survives exactly when '
-         'marked, a full collection releases exactly the unmarked old objects, nothing is released twice, sweeping starts only after '
-         'the context roots and every temporary root were traced, the newborn object of an allocation-triggered collection is a '
-         'root, the temporary root stack is balanced, and no intern-table entry is left pointing at a released string. The per-type '
-         'trace bodies and the VM root set (completeness of marking, C05.K1) are not yet machine checked, so this is the collector '
-         'half of the property only.',
-    note='Trusted: rustc MIR printer, mirsym, handle abstraction (identity, size, mark bit), tracing abstracted to "marks an '
-         'arbitrary superset of the traced roots", Vec retain/drain/filter/extend models, Z3.',
+    text='Decides with Z3 over the real MIR: C05.K1 mark completeness, one level: for every hand-written `impl Trace` of the three '
+         'crates (15 object / runtime types with their own obligation, 26 more in a sweep: iterator states, signatures, builders, '
+         'source files) the real trace body runs on an arbitrary value of the type (references as abstract identities, containers '
+         'with 0..2 elements, every Option / variant shape) and must hand every managed reference found by walking the type '
+         'definition to a trace; <Vm as TraceRoot>::trace must do the same for the fields of the Vm; C05.K2 the collector step '
+         '(collect_garbage, sweeps, collect_garbage_with_value) from an arbitrary mark state frees exactly the unmarked, keeps every '
+         'marked object, releases nothing twice, sweeps only after the context and every temporary root were traced, roots the '
+         'newborn object and leaves no intern entry pointing at a released string. Fields that are redundant by a stated invariant '
+         '(iterator `current` mirrored in Enumerator.current, error classes, Class.init, Vm.builtin / global_module / current_fun, the '
+         'weak inline caches) are listed as assumptions, not checked. Not decided: the element loops of the managed containers\' own '
+         'traces (Array, UniqueVector, RawSharedVector), `dyn` natives and enumerators (listed as not encoded in the evidence), the '
+         'temporary-root discipline of allocating natives and compiler code (K3), and the composition into "same output under every '
+         'collection schedule".',
+    note='Trusted: rustc MIR printer, mirsym, abstract identities for every reference type, hash maps / deques / vectors as bounded '
+         'logical containers, handle abstraction for the collector (identity, size, mark bit), Z3. The allow-list of redundant '
+         'fields is an argument by inspection, recorded in obl/c05k1.py.',
     ref='§4 C05')
 
 CLAIMED['C09'] = dict(
